@@ -539,6 +539,60 @@ theorem norm_T2_sequential (pre : List Ev) (hnf : ∀ e ∈ pre, e ≠ Ev.finish
     rw [seqRun_append, hrunE]
     simp [featsSt, seqRun_cons, seqRun_nil, seqStep]
 
+/-! ## T4b — events of the entity at the head of the output do not wait -/
+
+theorem handle_drained (n n' : Norm) (e : Ev) (out : List Ev) (hd : headDrained n.feats = true)
+    (h : n.handle e = some (n', out)) : headDrained n'.feats = true := by
+  unfold Norm.handle at h
+  split at h
+  · simp only [Option.some.injEq, Prod.mk.injEq] at h; rw [← h.1]; exact hd
+  · cases hi : n.insert e with
+    | none => simp [hi] at h
+    | some n1 =>
+      simp only [hi] at h
+      split at h <;> (simp only [Option.some.injEq, Prod.mk.injEq] at h; rw [← h.1]; exact emitFeats_drained _)
+
+theorem normRun_drained (n n' : Norm) (evs : List Ev) (outs : List (List Ev)) (hd : headDrained n.feats = true)
+    (h : normRun n evs = some (n', outs)) : headDrained n'.feats = true := by
+  induction evs generalizing n outs with
+  | nil => simp only [normRun, Option.some.injEq, Prod.mk.injEq] at h; rw [← h.1]; exact hd
+  | cons e es ih =>
+    simp only [normRun] at h
+    cases hh : n.handle e with
+    | none => simp [hh] at h
+    | some r =>
+      obtain ⟨n1, out⟩ := r
+      simp only [hh] at h
+      cases hr : normRun n1 es with
+      | none => simp [hr] at h
+      | some r2 =>
+        obtain ⟨n2, outs2⟩ := r2
+        simp only [hr, Option.some.injEq, Prod.mk.injEq] at h
+        obtain ⟨rfl, _⟩ := h
+        exact ih n1 outs2 (handle_drained n n1 e out hd hh) hr
+
+/-- **T4b.** After any contract-abiding prefix (no run-Finished yet), if the output so far ends INSIDE an
+    attempt (the sequential automaton, run over everything forwarded, shows that attempt open), then the next
+    event of that attempt is forwarded by the very call that receives it, as the first thing — it does not
+    wait for the attempt, the rule or the feature to finish. -/
+theorem norm_T4b_head_forwarded (pre : List Ev) (hnf : ∀ e ∈ pre, e ≠ Ev.finished)
+    (hs : SafeRun Norm.init pre = true) (hc : StartsRun Norm.init pre = true)
+    (n : Norm) (outs : List (List Ev)) (hrun : normRun Norm.init pre = some (n, outs))
+    (k : ScenKey) (ret : Option Retries) (ev : ScenEv)
+    (hopen : seqRun {} outs.flatten = some (inAtt k.feat k.rule (some (k, ret))))
+    (n' : Norm) (out : List Ev) (h : n.handle (.scen k ret ev) = some (n', out)) :
+    out.head? = some (.scen k ret ev) := by
+  obtain ⟨n0, outs0, hrun0, hseq, _, _, hno⟩ :=
+    norm_T2_from Norm.init pre (by simp [NormOk, Norm.init]) (by simp [featsWF, Norm.init]) (by simp [Norm.init]) hnf hs hc
+  rw [hrun] at hrun0
+  simp only [Option.some.injEq, Prod.mk.injEq] at hrun0
+  obtain ⟨rfl, rfl⟩ := hrun0
+  have h0 : featsSt Norm.init.feats = {} := rfl
+  rw [h0, hopen] at hseq
+  have hst : featsSt n.feats = inAtt k.feat k.rule (some (k, ret)) := (Option.some.inj hseq).symm
+  have hd := normRun_drained Norm.init n pre outs (by simp [headDrained, Norm.init]) hrun
+  exact head_event_forwarded n n' k ret ev out hno hd hst h
+
 /-! ## an already sequential stream passes through unchanged, event by event -/
 
 /-- **Pass-through.** If the stream handed to `Normalize` is already sequential (accepted by the strict
